@@ -171,3 +171,8 @@ def run(chk):
     padding.rule_sha_padding(chk, cf.PROGRAM[0] or cf.Program())
     from . import aead
     aead.rule_mac_source(chk, cf.PROGRAM[0] or cf.Program(), 'A1', floor=16)
+    from . import srcdst
+    srcdst.rule_src_offset(chk, cf.PROGRAM[0] or cf.Program(), 'O2', floor=60)
+    srcdst.rule_out_reads(chk, cf.PROGRAM[0] or cf.Program(), 'O1', floor=150)
+    from . import twins
+    twins.rule_field_copies(chk, cf.PROGRAM[0] or cf.Program(), 'X4', floor=120)
